@@ -30,7 +30,8 @@ RULE = ("One evaluation = one seeded execution of two real Managers (the "
         "Outbound, peer answering at once; pause_reconnect: the "
         "Leader's application pauses its subchannel, the connection is "
         "lost, the application resumes before the loss / in the gap / after "
-        "the replacement is up. "
+        "the replacement is up; many_reconnects: 2..6 losses (cut or silence) "
+        "in one session, then a responsive or a silent final connection. "
         "Non-trivial: at least one ping/pong round trip happened and (a "
         "stall window was applied or a drop/stop occurred). Distinct: "
         "event-log digests among non-trivial runs.")
@@ -58,7 +59,8 @@ def configs(tier):
     return [{"regime": r} for r in ("responsive", "silent", "slow",
                                     "responsive", "silent", "stop", "loss",
                                     "reconnect_silent", "one_way",
-                                    "bulk_reconnect", "pause_reconnect")]
+                                    "bulk_reconnect", "pause_reconnect",
+                                    "many_reconnects")]
 
 
 def run_one(seed, tape, opts):
@@ -160,6 +162,9 @@ def run_one(seed, tape, opts):
                 sim.note("fault.cut")
                 sim.net.cut(eL.link)
         R.callLater(cut_at, do_cut)
+    if regime == "many_reconnects":
+        return _many_reconnects(seed, tape, w, interval, first_conn, eL,
+                                t_conn)
     if regime == "pause_reconnect":
         return _pause_reconnect(seed, tape, w, interval, first_conn, eL, t_conn)
     if regime == "bulk_reconnect":
@@ -266,6 +271,92 @@ def run_one(seed, tape, opts):
 
 def _timer_pending(m):
     return m._timer is not None and m._timer.active()
+
+
+def _many_reconnects(seed, tape, w, interval, first_conn, eL, t_conn):
+    """A long session: the connection is lost several times for outside
+    reasons (at drawn moments, also while a ping is unanswered) or because
+    the peer went silent, each time a replacement comes up; the last one has
+    a responsive peer and must be kept - and a silent one still dropped."""
+    sim = w.sim
+    L, F = w.leader, w.follower
+    R = sim.reactor
+    viol = []
+    nloss = 2 + tape.choose(5, "nloss")
+    cur = first_conn
+    history = []
+    for i in range(nloss):
+        e = w.l2_end[cur]
+        how = tape.pick(("cut", "cut", "silence"), "how")
+        wait = interval * tape.pick((0.1, 0.6, 1.05, 1.5), "lwait")
+        sim.run(20000, max_time=wait)
+        if how == "cut":
+            if e.link.up:
+                sim.net.cut(e.link)
+                sim.note("fault.cut")
+        else:
+            e.stalled = True
+            sim.note("fault.stall")
+        history.append((how, round(sim.now() - t_conn, 2)))
+        prev = cur
+
+        def replaced(prev=prev):
+            c = L.m._connection
+            return c is not None and c is not prev and w.both_connected()
+        sim.run(40000, until=replaced, max_time=5 * interval)
+        if not replaced():
+            w.finish()
+            viol.append({"key": "C16.no_replacement_after_loss", "clause":
+                         "the Leader replaces a lost / silent connection: a "
+                         "new generation is started",
+                         "detail": "interval %.1f: after loss #%d (%s) no "
+                         "replacement within 5 intervals; history %r" %
+                         (interval, i + 1, how, history)})
+            break
+        cur = L.m._connection
+    dropped = [None]
+    if not viol:
+        e = w.l2_end[cur]
+        t2 = sim.now()
+        final = tape.pick(("responsive", "responsive", "silent"), "final")
+        if final == "silent":
+            e.stalled = True
+
+        def watch():
+            if dropped[0] is None and (not e.alive or
+                                       e.transport.disconnecting):
+                dropped[0] = sim.now()
+        sim.after_step = watch
+        sim.run(40000, until=lambda: dropped[0] is not None,
+                max_time=5 * interval)
+        watch()
+        w.finish()
+        if final == "responsive" and dropped[0] is not None:
+            viol.append({"key": "C16.responsive_dropped_after_reconnects",
+                         "clause": "a connection whose peer answers every "
+                         "ping within one interval is never dropped by the "
+                         "monitor", "detail": "interval %.1f: after %d losses "
+                         "%r the responsive replacement was dropped %.2f s "
+                         "after it was selected" %
+                         (interval, nloss, history, dropped[0] - t2)})
+        if final == "silent" and (dropped[0] is None or
+                                  dropped[0] > t2 + 3 * interval + 1e-6):
+            viol.append({"key": "C16.silent_not_dropped_after_reconnects",
+                         "clause": "a connection on which the other side "
+                         "stops answering is dropped under three ping "
+                         "intervals", "detail": "interval %.1f: after %d "
+                         "losses %r the silent replacement was %s" %
+                         (interval, nloss, history, "never dropped" if
+                          dropped[0] is None else "dropped after %.2f s" %
+                          (dropped[0] - t2))})
+    return {"violation": viol[0] if viol else None, "nontrivial": True,
+            "digest": sim.hexdigest(), "trace": sim.trace,
+            "stats": {"steps": sim.steps, "sim_s": sim.now() - 1000.0,
+                      "notes": sim.notes},
+            "sample": {"seed": seed, "regime": "many_reconnects",
+                       "interval": interval, "losses": history,
+                       "dropped_at": None if dropped[0] is None else
+                       round(dropped[0], 3)}}
 
 
 def _pause_reconnect(seed, tape, w, interval, first_conn, eL, t_conn):
